@@ -235,7 +235,9 @@ func rangeLimitIterator(i Iterator, r *Range, l *Limit, reverse bool) *RangeLimi
 			if !it.Iterator.Valid() {
 				it.Iterator.SeekToFirst()
 				if it.Iterator.Valid() && bytes.Compare(it.Iterator.RefKey(), r.Max) == 1 {
-					dbLog.Infof("iterator seek to last key %v should not great than seek to max %v", it.Iterator.RefKey(), r.Max)
+					// even the first key is greater than max, so the range is empty:
+					// step back before the first key to leave the iterator invalid
+					it.Iterator.Prev()
 				}
 			}
 			if r.Type&common.RangeROpen > 0 {
